@@ -42,8 +42,11 @@ def chk_content(L, q, want, what):
 
 
 def h_step(L, nkeys, klen, vlen, op, keylen, vallen):
+    return _step(L, pre_state(L, nkeys, klen, vlen), op, keylen, vallen)
+
+
+def _step(L, items, op, keylen, vallen):
     I = L.I
-    items = pre_state(L, nkeys, klen, vlen)
     key = L.sym_bytes('key', keylen)
     val = L.sym_bytes('val', vallen)
     L.assume_utf8(key)
@@ -83,6 +86,16 @@ def h_step(L, nkeys, klen, vlen, op, keylen, vallen):
                 L.check('get() returns the reference value', bytes_eq_term(list(sbytes(g.fields[0])), v))
     L.expect_native(req, {'rets': [to_native(got)], 'content': {'items': [[SymStr(k), SymStr(v)] for k, v in want_items], 'len': len(want_items)}})
     return 'ok'
+
+
+def h_step_fixed(L, keys, op, keylen, vallen):
+    """as h_step, from a collection with the given concrete keys (sorted, valid) and free values"""
+    items = []
+    for i, k in enumerate(sorted(keys)):
+        v = L.sym_bytes('v%d_' % i, 1)
+        L.assume_utf8(v)
+        items.append((list(k.encode()), v))
+    return _step(L, items, op, keylen, vallen)
 
 
 NOKEY = {'retain_nonempty', 'retain_mut_append', 'iter_mut_append', 'clear', 'reserve', 'insert_repository_url',
@@ -205,6 +218,12 @@ def queries(tier):
             qs.append(Query('step %s state=%d keys key=⟦3⟧ (1-byte stored keys)' % (op, nk), h_step,
                             {'nkeys': nk, 'klen': [1, 1][:nk], 'vlen': 1, 'op': op, 'keylen': 3, 'vallen': 1 if op in WITHVAL else 0},
                             bound='pre-state: %d one-byte keys; argument key: any valid-UTF-8 string of 3 bytes' % nk))
+    # larger collections (binary search over 5-7 entries): concrete stored keys, free argument key
+    for op in ('insert', 'get', 'remove', 'entry', 'entry_or_insert', 'contains_key', 'index', 'occ_remove', 'get_mut_set', 'retain_key_ne'):
+        for keys in (['b', 'd', 'f', 'h', 'j'], ['a1', 'a_', 'aa', 'b-', 'b.', 'c', 'zz']):
+            for kl in (1, 2):
+                qs.append(Query('step %s state=%s key=⟦%d⟧' % (op, ','.join(keys), kl), h_step_fixed, {'keys': keys, 'op': op, 'keylen': kl, 'vallen': 1 if op in WITHVAL else 0},
+                                bound='pre-state: the keys %s with one-byte free values; argument key: any valid-UTF-8 string of %d bytes' % (keys, kl)))
     for n in range(0, 4 if th else 3):
         for kl in ((1, 2) if th else (1,)):
             qs.append(Query('try_from_iter %d pairs key=⟦%d⟧' % (n, kl), h_from_iter, {'n': n, 'klen': kl, 'vlen': 1},
